@@ -23,7 +23,7 @@ LEVEL_TEXT = ('All files of a finite family (cross-section F3 without DAQmx, fra
               'by the real code; groups, channels, properties (timestamps raw), lengths, raw values (bit-exact), dtypes (when '
               'non-empty) and scaled data of source and copy are compared.')
 LEVEL_NOTE = 'Differential oracle; both sides are read by the real TdmsFile with raw_timestamps=True (reader correctness is C01/C02).'
-ASSUMPTIONS = ['order of groups/channels in the copy is not judged (the statement speaks of the same groups and channels)']
+ASSUMPTIONS = ['copy is compared both with the source as read by the real reader (differential) and with the reference interpretation of the source (absolute)', 'order of groups/channels in the copy is not judged (the statement speaks of the same groups and channels)']
 
 A, B, C = F.A, F.B, F.C
 
@@ -48,6 +48,9 @@ def extra_files():
     out.append(('empty/no-type-only', [G.seg([(A, ['NODATA'])])]))
     out.append(('empty/file-without-objects', [G.seg([])]))
     out.append(('empty/group-only', [G.seg([("/'g'", ['NODATA'], [['p', 'String', '61']])])]))
+    cjk = ['日本語日本語日本語', '😀😀😀😀', '', 'ЖЖЖЖ', '語']
+    hx = [x.encode('utf-8').hex() for x in cjk]
+    out.append(('strings/multibyte', [G.seg([(A, ['FULL', 'String', len(cjk), sum(len(x) // 2 for x in hx), hx]), (B, ['FULL', 'Int8', 1])], chunks=2)]))
     out.append(('names/quotes', [G.seg([("/'it''s'/'a/b'", ['FULL', 'Int16', 2]), ("/'it''s'/''", ['FULL', 'Int16', 1])])]))
     out.append(('mixed-endian-ts', [G.seg([(A, ['FULL', 'TimeStamp', 2])], big=True), G.seg([(A, ['FULL', 'TimeStamp', 2])])]))
     return out
@@ -92,10 +95,31 @@ def compare(src, dst):
     return None
 
 
+def compare_ref(ref, dst):
+    """absolute oracle: the copy's raw values against the reference interpretation of the source
+    (a reader defect that misreads source and copy alike is invisible to the differential comparison)"""
+    for path in ref.order:
+        if not H._is_channel(path) or isinstance(ref.dtype.get(path), tuple):
+            continue
+        comps = H._components(path)
+        got = dst['channels'].get((comps[0], comps[1]))
+        if got is None:
+            return ('channels', 'channel %s missing in the copy' % path)
+        exp = H.expected_array(ref, path)
+        if exp[0] is None or exp[1] == 0:
+            if got['len'] != 0:
+                return ('length', '%s: copy has %d values, source encodes none' % (path, got['len']))
+            continue
+        if got['raw'][1] != exp[1] or got['raw'][2] != exp[2]:
+            return ('raw-values-vs-reference', 'raw values of %s in the copy differ from what the source encodes: %s vs %s'
+                    % (path, H._short(got['raw'][2]), H._short(exp[2])))
+    return None
+
+
 def run_file(item):
     from nptdms import TdmsWriter
     name, hist, seed = item
-    data = G.encode(hist, seed=seed)[0]
+    data, _i, _l, ref = G.encode(hist, seed=seed)
     res = {'counters': {'files': 1, 'defrags': 0, 'nontrivial': 0}, 'outcomes': {}, 'violations': [], 'samples': []}
     r = H.guarded(lambda: snapshot(H.TdmsFile.read(io.BytesIO(data), raw_timestamps=True)))
     if r[0] != 'ok':
@@ -140,7 +164,8 @@ def run_file(item):
                             continue
                         if rr[1].tdms_version != version:
                             res['violations'].append(_viol(name, hist, seed, cfg, version, rr[1].tdms_version, 'version'))
-                        why = compare(src, snapshot(rr[1]))
+                        snap = snapshot(rr[1])
+                        why = compare(src, snap) or compare_ref(ref, snap)
                         if why:
                             res['violations'].append(_viol(name, hist, seed, cfg, 'copy == source', why[1], why[0]))
                         if index and iout is not None:
